@@ -91,6 +91,28 @@ TY_ID: dict[type, int] = {c: i for i, c in enumerate(TYPES)}
 PLAIN = [5, 6, 7, 8, 9, 10, 11, 12]
 
 
+# Value-equal events: when switched on (spec["eq_events"]), events of one class with the same `k` compare
+# equal although they are different events (different uid) — as user events with equal payloads do.
+EQ_IGNORE_UID = [False]
+
+
+def _install_eq() -> None:
+    for c in TYPES:
+        if c is T4:
+            continue
+        base_eq = c.__eq__
+
+        def _eq(self: Any, other: Any, _base: Any = base_eq) -> Any:
+            if EQ_IGNORE_UID[0] and type(self) is type(other):
+                return self.k == other.k
+            return _base(self, other)
+
+        c.__eq__ = _eq  # type: ignore[method-assign]
+
+
+_install_eq()
+
+
 def kind_of(cls: type) -> str:
     if issubclass(cls, StartEvent):
         return "s"
